@@ -47,7 +47,7 @@ Inductive c08_case :=
 | H3Case (c : cfg3) (union : bool) (pre racy inj : list label3) (o : obs3)
 (* retry layer: labels up to and including the injection; observed: the call's error and the
    number of attempts that reached the peer *)
-| RetryCase (max : option nat) (ls : list rlabel) (o_err : ocall) (o_seen : nat).
+| RetryCase (zero : bool) (max : option nat) (ls : list rlabel) (o_err : ocall) (o_seen : nat).
 
 Definition cause_eqb (a b : cause) : bool :=
   match a, b with
@@ -331,14 +331,14 @@ Definition c08_check (k : c08_case) : bool :=
       | [] => false
       | fs => existsb (matches3 o) fs
       end
-  | RetryCase max ls oe seen =>
-      match rrun true max rinit ls with
+  | RetryCase zero max ls oe seen =>
+      match rrunz zero true max rinit ls with
       | Some s =>
           existsb (fun f => match r_phase f with
                             | PRet (Some e) => ocall_eqb (OErr e) oe && Nat.eqb (r_net f) seen
                             | PRet None => ocall_eqb OResp oe && Nat.eqb (r_net f) seen
                             | _ => false
-                            end) (rfinish 6 true max s)
+                            end) (rfinishz 6 zero true max s)
       | None => false
       end
   end.
